@@ -67,6 +67,8 @@ PROBES = {
         "insert:block-starting-in-delay-slot",
         "graph:sweep-object's-own",
         "resweep-after-insertions",
+        "client-cut-of-a-mapped-node",
+        "block-inserted-where-the-client-cut",
     ]
 }
 
@@ -224,6 +226,10 @@ class CaseGen(object):
                 ops.append({"op": "edge", "x": r.choice(S), "y": r.choice(S)})
             if r.random() < 0.15:
                 ops.append({"op": "resweep", "a": r.choice(bounds)})
+            if r.random() < 0.12:
+                # the client shortens a mapped node itself (node.cut is public) and later
+                # inserts the block that starts where it cut
+                ops.append({"op": "cutnode", "a": r.choice(S), "k": r.randrange(1, 6), "readd": r.random() < 0.8})
         ops.append({"op": "resweep", "a": r.choice(bounds)})
         return ops
 
@@ -474,7 +480,8 @@ class Case(object):
             st.hit("probe:insert:block-starting-in-delay-slot")
         vtx = self.G.get_by_name("blck_%s" % str(b.address)) or cfg.node(b)
         self.G.add_vertex(vtx)
-        for i in b.instr:
+        # (what is inserted is the vertex: a node found by name may have been cut by the client)
+        for i in (vtx.data.instr if vtx.data._is_block else b.instr):
             self.inserted[_v(i.address)] = i.length
         self.n_insert += 1
         if kinds and set(kinds) - {"before-first", "after-last"}:
@@ -503,6 +510,29 @@ class Case(object):
                 st.hit("probe:insert:three-way-split")
             old.misc["split-count-amosim"] = 1
             new.misc["split-count-amosim"] = 1
+
+    def cutnode(self, a, k, readd):
+        """node.cut(addr) by the client on a node of the support, at an instruction boundary;
+        the cut-away instructions are no longer in the graph until they are inserted again"""
+        nodes = {s: n for (s, n, _) in self.support_nodes()}
+        n = nodes.get(a)
+        if n is None or len(n.data.instr) < 2:
+            return
+        ins = n.data.instr
+        kk = 1 + (k - 1) % (len(ins) - 1)
+        addr = ins[kk].address
+        gone = [(_v(i.address), i.length) for i in ins[kk:]]
+        removed = n.cut(addr)
+        if removed != len(gone):
+            raise Failure("node-cut-count", "cfgsim:nodecut:count", {"at": a, "cut": _v(addr), "removed": removed, "want": len(gone)})
+        for (x, _) in gone:
+            self.inserted.pop(x, None)
+        self.st.hit("probe:client-cut-of-a-mapped-node")
+        self.log.event("cutnode", a, _v(addr))
+        self.check_graph("cutnode@%d" % a)
+        if readd and _v(addr) in self.blockend:
+            self.add(_v(addr))
+            self.st.hit("probe:block-inserted-where-the-client-cut")
 
     def edge(self, x, y):
         cfg = self.cfg
@@ -633,6 +663,8 @@ def run(spec):
                 case.slice_and_cut(op["x"])
             elif op["op"] == "resweep":
                 case.resweep(op["a"])
+            elif op["op"] == "cutnode":
+                case.cutnode(op["a"], op["k"], op.get("readd", True))
         except Failure as f:
             viol = {"class": f.vclass, "signature": f.sig, "detail": dict(f.detail, op=op, isa=case.name if case else op.get("isa"))}
         except Exception as e:
